@@ -35,6 +35,12 @@ SENSITIVITY = {
     "c18a": ("seeded/c18a/patch.diff", "C18", ["callback-invariant", "wrong-target"], "A"),
     "c18b": ("seeded/c18b/patch.diff", "C18", ["error-swallowed"], "A"),
     "c18c": ("seeded/c18c/patch.diff", "C18", ["build-invariant", "build-invoked-on-invalid-input"], "A"),
+    "r2a": ("seeded/r2a/patch.diff", "C17", ["entry-point-mismatch"], "A: entry-point clause"),
+    "r2b": ("seeded/r2b/patch.diff", "C17", ["result-mismatch"], "B (Miri): Bilinear hammer workloads"),
+    "r2c": ("seeded/r2c/patch.diff", "C17", ["result-mismatch"], "A: oob fault then ordinary queries"),
+    "r2d": ("seeded/r2d/patch.diff", "C17", ["result-mismatch", "data-race", "reference-unstable"], "A: sibling build over shared storage"),
+    "r2e": ("seeded/r2e/patch.diff", "C18", ["callback-invariant"], "A: accessor probes"),
+    "r2f": ("seeded/r2f/patch.diff", "C18", ["wrong-target"], "A: target correspondence"),
 }
 
 BENIGN = {
